@@ -90,6 +90,20 @@ def gen(ctx):
     return cases
 
 
+def _scribble(x):
+    """what a caller may do with a result it was handed: overwrite it in place.  Later answers of the accessor must not change."""
+    try:
+        if isinstance(x, np.ndarray):
+            if x.size:
+                x[...] = x.flat[0]
+                x[:] = x[::-1]
+        else:  # DataFrame / Series
+            v = x.to_numpy()
+            x.iloc[...] = v.flat[0] if v.size else 0
+    except Exception:
+        pass
+
+
 def observe(case):
     with M.quiet():
         dm = G.mkdm(case["dm"])
@@ -103,12 +117,15 @@ def observe(case):
                 if name in ("bt", "eq"):
                     df = getattr(acc, name)()
                     outs.append({"v": df.to_numpy().tolist(), "rows": [G.lab(x) for x in df.index], "cols": [G.lab(x) for x in df.columns]})
+                    _scribble(df)
                 elif name == "dominance":
                     df = acc.dominance(strict=c["strict"])
                     outs.append({"v": df.to_numpy().astype(bool).tolist(), "rows": [G.lab(x) for x in df.index], "cols": [G.lab(x) for x in df.columns]})
+                    _scribble(df)
                 elif name == "dominated":
                     s = acc.dominated(strict=c["strict"])
                     outs.append({"v": [bool(x) for x in s.to_numpy()], "rows": [G.lab(x) for x in s.index]})
+                    _scribble(s)
                 elif name == "compare":
                     df = acc.compare(alts[c["a"]], alts[c["b"]])
                     body = df.iloc[:, :-1].to_numpy().astype(bool).tolist()
@@ -116,6 +133,7 @@ def observe(case):
                 elif name == "dominators_of":
                     d = acc.dominators_of(alts[c["a"]], strict=c["strict"])
                     outs.append({"v": [idx[G.lab(x)] for x in d]})
+                    _scribble(d)
                 elif name == "has_loops":
                     outs.append({"v": bool(acc.has_loops(strict=c["strict"]))})
             except Exception as e:
